@@ -715,6 +715,8 @@ def reserve_reference(psize, off, at, er, fulls):
         if full:
             return 0, cbs, 1, at
         cbs += 'O'; at = off
+        if er > psize - at:        # the newly opened packet is too small (cannot happen with the probe's stub callbacks)
+            return 0, cbs, 1, at
     return 1, cbs, 0, at
 
 
